@@ -280,4 +280,27 @@ example : (connectA [] [str "OK M", str "PD 0.2", str "3.5\nOK\n"] .eof).1 = .ok
     (by intro c hc; simp only [List.mem_cons, List.mem_nil_iff, or_false] at hc; rcases hc with rfl | rfl | rfl <;> decide +kernel)
     (by decide +kernel) (by decide +kernel) (by decide +kernel) (by decide +kernel)
 
+/-! ## a peer that is not MPD is rejected at once
+
+`connect` does not wait for a line end: as soon as what has arrived can no longer be the beginning of
+a greeting, the very read that brought it ends the call with the invalid-message error, and nothing
+further is read (seeded change C18_m24 made it wait for a newline that never comes). -/
+
+theorem C18_reject_without_waiting (buf c : Bytes) (cs : List Bytes) (term : Term) (hc : c.isEmpty = false)
+    (hinc : greeting (buf ++ c) ≠ .incomplete) (hok : ∀ v r, greeting (buf ++ c) ≠ .ok v r) :
+    connectA buf (c :: cs) term = (.invalid, cs) := by
+  rw [connectA]
+  simp only [hc]
+  cases hg : greeting (buf ++ c) with
+  | ok v r => exact absurd hg (hok v r)
+  | incomplete => exact absurd hg hinc
+  | error => rfl
+  | failure => rfl
+
+/-- a telnet negotiation, an FTP banner, a near miss: none contains a line end, all are refused by the
+read that delivers them, whatever the script holds afterwards -/
+example : (connectA [] [[0xff, 0xfb, 0x01], str "never read"] .eof) = (.invalid, [str "never read"]) ∧
+    (connectA [] [str "220 ProFTPD Server ready"] (.ioerr 2)).1 = .invalid ∧
+    (connectA [] [str "OK M", str "PX"] .eof).1 = .invalid := by decide +kernel
+
 end Mpd.C18
